@@ -183,6 +183,28 @@ pub fn known_null_key_target(st: &MSettings, tgt: &[Row]) -> bool {
 pub fn known_fail_off_fast_path(st: &MSettings) -> bool {
     matches!(st.wm, Wm::Fail) && !st.fast_path()
 }
+/// off the fast path the Merger tests the FIRST on.len() columns of each half of the joined batch; the target half is
+/// in dataset order behind the indexed join and in source-schema order otherwise
+pub fn known_key_cols_not_first(st: &MSettings) -> bool {
+    if st.fast_path() {
+        return false;
+    }
+    let nk = st.on.len();
+    let set = |v: &[usize]| {
+        let mut x = v.to_vec();
+        x.sort();
+        x.dedup();
+        x
+    };
+    let uses_index = st.indexed && matches!(st.ns, Ns::Keep);
+    let mut tcols = st.scols.clone();
+    if uses_index {
+        tcols.sort();
+    }
+    let l: Vec<usize> = st.scols.iter().take(nk).cloned().collect();
+    let r: Vec<usize> = tcols.iter().take(nk).cloned().collect();
+    set(&l) != set(&st.on) || set(&r) != set(&st.on)
+}
 pub fn known_update_if_partial(st: &MSettings) -> bool {
     matches!(st.wm, Wm::UpdateIf(_)) && !st.full()
 }
